@@ -692,19 +692,21 @@ Section Generic.
   (* ---- ClientPeerIDAuth.AuthenticateWithRoundTripper without a stored token, and
           runHandshake (auth/client.go) ------------------------------------------------ *)
   (* one scripted response of the other side *)
-  Record resp := mkResp { r_tbl : vtable; r_www : bytes; r_info : bytes }.
+  Record resp := mkResp { r_status : Z; r_tbl : vtable; r_www : bytes; r_info : bytes }.
 
   Definition is_done (c : client) : bool := match cl_state c with CDone => true | _ => false end.
   Definition is_auth (c : client) : bool :=
     match client_peer c with Some _ => true | None => false end.
 
   (* the loop  for !hs.HandshakeDone() || !sentBody  with its budget of 5 round trips.
-     Result: the reported id (None = an error is returned) and the Authorization
-     headers of the requests sent, in order; outer None = the table of a response
+     Result: the reported id together with the header BearerToken() then returns
+     (None = an error is returned) and the Authorization headers of the requests
+     sent, in order; outer None = the table of a response
      does not describe one of its values.  One element of [fresh] per Run call. *)
   Fixpoint handshake_loop (steps : nat) (c : client) (sent : bool) (resps : list resp)
-           (fresh : list N) (reqs : list ohdr) : option (option N * list ohdr) :=
-    if is_done c && sent then Some (client_peer c, rev reqs)
+           (fresh : list N) (reqs : list ohdr) : option (option (N * ohdr) * list ohdr) :=
+    if is_done c && sent then
+      Some (match client_peer c with Some p => Some (p, cl_out c) | None => None end, rev reqs)
     else
       match steps with
       | O => Some (None, rev reqs)                       (* "handshake took too many steps" *)
@@ -723,13 +725,83 @@ Section Generic.
           end
       end.
 
+  Definition strip_token (r : option (option (N * ohdr) * list ohdr)) : option (option N * list ohdr) :=
+    match r with
+    | Some (x, qs) => Some (option_map fst x, qs)
+    | None => None
+    end.
+
   Definition auth_do (key host : N) (resps : list resp) (fresh : list N)
     : option (option N * list ohdr) :=
     match fresh with
     | f0 :: fs =>
         let '(c, ok) := client_run (client_set_initiate (client_init key host)) f0 in
-        if ok then handshake_loop 5 c false resps fs [] else Some (None, [])
+        if ok then strip_token (handshake_loop 5 c false resps fs []) else Some (None, [])
     | [] => None
+    end.
+
+  (* the token map entry of one hostname: the Authorization header to send, the cached id *)
+  Definition cache := option (ohdr * N).
+
+  (* AuthenticateWithRoundTripper on a request whose GetBody is set.  With a cached
+     token: send it; any status but 401 -> the cached id is reported; 401 -> a new
+     handshake object parses that response and runs the server-initiated handshake.
+     Only a successful handshake rewrites the entry (token and id together). *)
+  Definition auth_call (key host : N) (ca : cache) (resps : list resp) (fresh : list N)
+    : option (option N * list ohdr * cache) :=
+    match ca with
+    | None =>
+        match fresh with
+        | f0 :: fs =>
+            let '(c, ok) := client_run (client_set_initiate (client_init key host)) f0 in
+            if ok then
+              match handshake_loop 5 c false resps fs [] with
+              | None => None
+              | Some (Some (p, tok), qs) => Some (Some p, qs, Some (tok, p))
+              | Some (None, qs) => Some (None, qs, None)
+              end
+            else Some (None, [], None)
+        | [] => None
+        end
+    | Some (tok, cp) =>
+        match resps with
+        | [] => Some (None, [tok], ca)                       (* transport error *)
+        | r1 :: rs =>
+            if negb (r_status r1 =? 401)%Z then Some (Some cp, [tok], ca)
+            else
+              match fresh with
+              | f0 :: fs =>
+                  match client_parse (client_init key host) (r_tbl r1) (r_www r1) (r_info r1) with
+                  | None => None
+                  | Some (c0, _) =>
+                      let '(c, ok) := client_run c0 f0 in
+                      if ok then
+                        match handshake_loop 5 c false rs fs [] with
+                        | None => None
+                        | Some (Some (p, tok'), qs) => Some (Some p, tok :: qs, Some (tok', p))
+                        | Some (None, qs) => Some (None, tok :: qs, ca)
+                        end
+                      else Some (None, [tok], ca)
+                  end
+              | [] => None
+              end
+        end
+    end.
+
+  (* a history of calls on one ClientPeerIDAuth for one hostname *)
+  Fixpoint auth_session (key host : N) (ca : cache) (calls : list (list resp * list N))
+    : option (list (option N * list ohdr)) :=
+    match calls with
+    | [] => Some []
+    | (resps, fresh) :: rest =>
+        match auth_call key host ca resps fresh with
+        | None => None
+        | Some (pid, qs, ca') =>
+            match auth_session key host ca' rest with
+            | Some l => Some ((pid, qs) :: l)
+            | None => None
+            end
+        end
     end.
 End Generic.
 
@@ -739,3 +811,5 @@ Definition server_run_i := server_run sym_verify sym_mac_check.
 Definition client_parse_i := client_parse.
 Definition client_run_i := client_run sym_verify.
 Definition auth_do_i := auth_do sym_verify.
+Definition auth_call_i := auth_call sym_verify.
+Definition auth_session_i := auth_session sym_verify.
